@@ -107,6 +107,7 @@ func runC07(w *World, r *Report, tier string) {
 		}
 	}
 	ruleZoomPassthru(w, r)
+	ruleIndexRange(w, r)
 	guardRows(w, r, "C07")
 }
 
